@@ -673,6 +673,15 @@ def pyOutcome (o : Obs) (infos : List PyInfo) (envStart : Rat) : Nat → Int →
           | some f => some (clamp f.1, if f.2.headD 0 == 1 then f.2 else [2])
           | none => none
 
+/-- position in the trace at which a plain event / a process is triggered (0: unknown) -/
+def pyTriggerPos (o : Obs) (infos : List PyInfo) (i : Int) : Nat :=
+  match infos.find? (·.idx == i) with
+  | some inf =>
+    if inf.kind == 0 then (((idx o).find? (fun p => p.1.tag == "pytrig" && arg p.1 0 == i)).map (·.2)).getD 0
+    else if inf.kind == 2 then (((idx o).find? (fun p => p.1.tag == "pyend" && p.1.label == 5000 + inf.proc)).map (·.2)).getD 0
+    else 0
+  | none => 0
+
 def judgeC18 (o : Obs) : Verdict :=
   let infos := pyInfos o
   -- the environment starts when it is entered, not before its initial time
@@ -693,6 +702,24 @@ def judgeC18 (o : Obs) : Verdict :=
            | none => false) || memberFailureF fuel m got upto)
       | none => false
   let memberFailure (i : Int) (got : List Int) (upto : Rat) : Bool := memberFailureF 6 i got upto
+  -- which `Interrupt` receipts of a process are interrupts (a pending call with that cause: interrupts take
+  -- precedence over the awaited event) and which are the value of a failed event; the rest is unexplained
+  let classify (pr : PyInfo) : List ((Ev × Nat) × (Ev × Nat)) × List (Ev × Nat) :=
+    let mine := ofLabel o (5000 + pr.proc)
+    let endAt := ((mine.find? (·.1.tag == "pyend")).map (·.2)).getD (o.events.length + 1)
+    let calls := (idx o).filter (fun p => p.1.tag == "pyintr" && arg p.1 0 == pr.proc && p.2 < endAt)
+    let coded := mine.filter (fun r => r.1.tag == "recv" && (r.1.args.drop 1).take 2 == ([1, 16] : List Int))
+    let res := coded.foldl (fun (st : Nat × List ((Ev × Nat) × (Ev × Nat)) × List (Ev × Nat)) r =>
+      let valueLike : Bool := (mine.find? (fun y => y.1.tag == "pyyield" && arg y.1 0 == arg r.1 0 && y.2 < r.2)).any (fun y =>
+        (match out (arg y.1 1) with
+         | some (t, code) => code == r.1.args.drop 1 && r.1.time == ratMax y.1.time t && r.2 > pyTriggerPos o infos (arg y.1 1)
+         | none => false) || memberFailure (arg y.1 1) (r.1.args.drop 1) r.1.time)
+      match calls[st.1]? with
+      | some c =>
+        if c.2 < r.2 && arg c.1 1 == arg r.1 3 then (st.1 + 1, st.2.1 ++ [(r, c)], st.2.2)
+        else if valueLike then st else (st.1, st.2.1, st.2.2 ++ [r])
+      | none => if valueLike then st else (st.1, st.2.1, st.2.2 ++ [r])) (0, [], [])
+    res.2
   -- J1/J2: every wait of a process ends at max(yield time, trigger time) with the event's value
   let waits := procs.flatMap (fun pr =>
     let l := 5000 + pr.proc
@@ -704,10 +731,16 @@ def judgeC18 (o : Obs) : Verdict :=
       | none => []
       | some r =>
         let got := r.1.args.drop 1
-        let asValue : Bool := (match out target with
-          | some (t, code) => code == got && r.1.time == ratMax y.1.time t
-          | none => false) || memberFailure target got r.1.time
-        if (got.take 2 == [1, 16] && !asValue) || target < 0 then []
+        let asValue : Bool := !((classify pr).1.any (fun rc => rc.1.2 == r.2))
+        if target == -2 then
+          -- a native coroutine `await (time + d); return v`: same result and time as for an awaiting activity
+          let d := ratArg (arg y.1 4) (arg y.1 5)
+          if got.take 2 == [1, 16] then []
+          else
+            fail (r.1.time != y.1.time + d) s!"process {pr.proc} yielded an activity taking {d} at {y.1.time} and resumed at {r.1.time}" ++
+            fail (arg y.1 3 == 0 && got != [0, arg y.1 2]) s!"process {pr.proc} received {got} from an activity that returned {arg y.1 2}" ++
+            fail (arg y.1 3 == 1 && got.headD 0 != 1) s!"process {pr.proc} received {got} from an activity that failed"
+        else if (got.take 2 == [1, 16] && !asValue) || target < 0 then []
         else match out target with
           | none => [s!"process {pr.proc} resumed at {r.1.time} from waiting for event {target}, which never triggered"]
           | some (t, code) =>
@@ -721,7 +754,7 @@ def judgeC18 (o : Obs) : Verdict :=
               s!"process {pr.proc} yielded event {target} at {y.1.time}; the event triggers at {t} but the process resumed at {r.1.time}" ++
             fail (!isCond && got != code)
               s!"process {pr.proc} received {got} from event {target} whose value is {code}" ++
-            fail (isCond && !sameTimeMembers && got.headD 0 != code.headD 0)
+            fail (isCond && !sameTimeMembers && !(got.headD 0 == 1 && memberFailure target got r.1.time) && got.headD 0 != code.headD 0)
               s!"process {pr.proc} received {got} from condition {target}, expected outcome kind {code}" ++
             -- exactly the members fired by then: everything strictly earlier is in, nothing later
             (if isCond && got.headD 0 == 2 then
@@ -742,22 +775,15 @@ def judgeC18 (o : Obs) : Verdict :=
     let endAt := ((mine.find? (·.1.tag == "pyend")).map (·.2)).getD (o.events.length + 1)
     let firstYield := ((mine.find? (·.1.tag == "pyyield")).map (·.2)).getD (o.events.length + 1)
     let calls := (idx o).filter (fun p => p.1.tag == "pyintr" && arg p.1 0 == pr.proc && p.2 < endAt)
-    -- (an Interrupt that is the value of the failed event the process waited for is not an interrupt of the process)
-    let recvs := mine.filter (fun r => r.1.tag == "recv" && (r.1.args.drop 1).take 2 == ([1, 16] : List Int) &&
-      !((mine.find? (fun y => y.1.tag == "pyyield" && arg y.1 0 == arg r.1 0 && y.2 < r.2)).any (fun y =>
-          (match out (arg y.1 1) with
-           | some (t, code) => code == r.1.args.drop 1 && r.1.time == ratMax y.1.time t
-           | none => false) || memberFailure (arg y.1 1) (r.1.args.drop 1) r.1.time)))
-    fail (recvs.length > calls.length) s!"process {pr.proc} received {recvs.length} interrupts, {calls.length} were sent while it was alive" ++
-    (recvs.zip calls).flatMap (fun rc =>
-      fail (arg rc.1.1 3 != arg rc.2.1 1) s!"process {pr.proc}: interrupt causes delivered out of call order ({arg rc.1.1 3} for {arg rc.2.1 1})" ++
-      fail (rc.1.2 < rc.2.2) s!"process {pr.proc}: interrupt delivered before it was sent" ++
+    let (pairs, bad) := classify pr
+    bad.map (fun r => s!"process {pr.proc} received Interrupt({arg r.1 3}) at {r.1.time}: no such interrupt was pending (not sent, sent to a finished process, or out of call order)") ++
+    pairs.flatMap (fun rc =>
       fail (rc.2.2 > firstYield && rc.1.1.time != rc.2.1.time) s!"process {pr.proc}: interrupt sent at {rc.2.1.time} delivered at {rc.1.1.time}") ++
     -- a process that is still waiting when further interrupts are pending must get them at once
-    fail (recvs.length < calls.length && endAt > o.events.length &&
-          ((mine.filter (·.1.tag == "pyyield")).getLast?.map (fun y => decide (y.2 > ((calls.getD recvs.length default).2)))).getD false &&
+    fail (pairs.length < calls.length && endAt > o.events.length &&
+          ((mine.filter (·.1.tag == "pyyield")).getLast?.map (fun y => decide (y.2 > ((calls.getD pairs.length default).2)))).getD false &&
           ((mine.filter (·.1.tag == "pyyield")).getLast?.map (fun y => decide (y.1.time < envEnd))).getD false)
-      s!"process {pr.proc} kept waiting although interrupt number {recvs.length + 1} was sent to it")
+      s!"process {pr.proc} kept waiting although interrupt number {pairs.length + 1} was sent to it")
   -- J4: an event is triggered at most once; callbacks run once, at the trigger
   let once := infos.flatMap (fun inf =>
     let trigs := o.events.filter (fun e => e.tag == "pytrig" && arg e 0 == inf.idx)
